@@ -390,6 +390,32 @@ def gen_txhash(rng, tier):
 	return cases
 
 
+class _Exhausted(Exception):
+	pass
+
+
+def _bounded(function, seconds=3, extra_bytes=1 << 30):
+	"""Runs function() with a time limit and an address-space limit: a mutated count / size member can make a lenient reader build
+	gigabytes out of a few bytes; such byte strings are simply not used as cases."""
+	import resource
+	import signal
+
+	def on_alarm(_signum, _frame):
+		raise _Exhausted()
+	with open('/proc/self/statm', encoding='utf8') as statm:
+		current = int(statm.read().split()[0]) * resource.getpagesize()
+	soft, hard = resource.getrlimit(resource.RLIMIT_AS)
+	previous = signal.signal(signal.SIGALRM, on_alarm)
+	signal.setitimer(signal.ITIMER_REAL, seconds)
+	resource.setrlimit(resource.RLIMIT_AS, (current + extra_bytes, hard))
+	try:
+		return function()
+	finally:
+		resource.setrlimit(resource.RLIMIT_AS, (soft, hard))
+		signal.setitimer(signal.ITIMER_REAL, 0)
+		signal.signal(signal.SIGALRM, previous)
+
+
 def gen_nem(rng, tier):
 	from symbolchain import nc
 	from symbolchain.facade.NemFacade import NemFacade
@@ -421,13 +447,17 @@ def gen_nem(rng, tier):
 			bit = rng.randrange(region[0] * 8, region[1] * 8)
 			variants.append((flip(buffer, bit), bit))
 		for variant, bit in variants:
+			def decode_and_convert(data=variant):
+				transaction = nc.TransactionFactory.deserialize(data)
+				if transaction.serialize() != data:
+					return None
+				return TransactionFactory.to_non_verifiable_transaction(transaction).serialize()
 			try:
-				transaction = nc.TransactionFactory.deserialize(variant)
-				if transaction.serialize() != variant:
-					continue
-				non_verifiable = TransactionFactory.to_non_verifiable_transaction(transaction).serialize()
-			except Exception:  # pylint: disable=broad-except
-				continue   # the mutated bytes are not a transaction of the schema
+				non_verifiable = _bounded(decode_and_convert)
+			except (Exception, _Exhausted):  # pylint: disable=broad-except
+				continue   # the mutated bytes are not a transaction of the schema (or make the lenient reader allocate without bound)
+			if non_verifiable is None:
+				continue
 			case = {'kind': 'nemhash', 'label': label, 'b': variant.hex(), 'nv': non_verifiable.hex()}
 			if bit is not None:
 				case.update({'base': buffer.hex(), 'bit': bit})
